@@ -121,6 +121,8 @@ var c15ExtraSDL = []string{
 	"interface A { a: Int } interface B implements A { a: Int b: Int } type T implements B & A { a: Int b: Int } type Query { t: A }",
 	"scalar JSON scalar Date type Query { j(j: JSON = \"{}\", d: Date): JSON }",
 	"union U = A | B type A { a: Int } type B { b: Int } type Query { u: [U!] }",
+	// directives named like those of newer specification drafts are the service's own definitions
+	"directive @defer(label: String, if: Boolean = true) on FRAGMENT_SPREAD | INLINE_FRAGMENT directive @oneOf on INPUT_OBJECT directive @stream(initialCount: Int = 0) on FIELD type Query { a: Int }",
 	// string defaults with escape sequences and no quote inside (argument, input field, directive argument)
 	"type Query { g(p: String = \"\\\\d+\\t\\u00e9 x\", q: [String] = [\"a\\\\b\"]): Int h(i: IE): Int } input IE { r: String = \"back\\\\slash\" s: String = \"\" } directive @dd(s: String = \"t\\tab\") on FIELD",
 }
